@@ -30,10 +30,24 @@ demo=$(cat "$d/demo_cmd.txt" | head -1)
 # remove demo files for the suite run
 (cd "$d/demo" && find . -type f) | while read f; do rm -f "$wt/$f"; done
 if [ "$nosuite" != "--no-suite" ]; then
-  go test -vet=off -count=1 -timeout 180m ./... >"$wt/.suite.log" 2>&1; rc=$?
+  pkgs="./..."; case "$nosuite" in --only-pkgs=*) pkgs="${nosuite#--only-pkgs=}";; esac
+  go test -vet=off -count=1 -timeout 240m $pkgs >"$wt/.suite.log" 2>&1; rc=$?
   nok=$(grep -c '^ok' "$wt/.suite.log"); nfail=$(grep -c -E '^(FAIL|---\s*FAIL|panic:)' "$wt/.suite.log")
-  res suite_exit=$rc suite_ok_pkgs=$nok suite_fail_lines=$nfail
+  res suite_cmd="go test -vet=off -count=1 -timeout 240m $pkgs" suite_exit=$rc suite_ok_pkgs=$nok suite_fail_lines=$nfail
   grep -E '^(FAIL|--- FAIL|panic:)' "$wt/.suite.log" | head -20 > "$d/suite_failures.log"
+  # The sandbox is heavily loaded while several suites run side by side: packages that fail are re-run
+  # alone (timeouts and UI-timing tests are load, not the change); the verdict is the union.
+  failed=$(grep -E '^FAIL\s+github.com' "$wt/.suite.log" | awk '{print $2}' | sed 's#github.com/gittuf/gittuf#.#' | sort -u)
+  if [ -n "$failed" ]; then
+    still=""
+    for p in $failed; do
+      TMPDIR=$(mktemp -d /tmp/sconf_tmp.XXXXXX) go test -vet=off -count=1 -timeout 240m "$p/" >"$wt/.rerun.log" 2>&1 || still="$still $p"
+      grep -E '^(ok|FAIL|--- FAIL|panic:)' "$wt/.rerun.log" | head -5 >> "$d/suite_failures.log"
+    done
+    res suite_rerun_alone="$failed" suite_still_failing="${still:-none}"
+  else
+    res suite_still_failing=none
+  fi
 fi
 git checkout -q -- . ; cp -r "$d/demo/." "$wt/"
 ( eval "$demo" ) >"$d/demo_without.log" 2>&1; rc=$?
